@@ -455,11 +455,10 @@ class HybridLoad:
             # calculate the average value for the month
             if ipf[i]:
                 current_year = self.years[0] if len(self.years) <= 1 else self.years[(i - 1) // 12]
-                month_duration = (
-                    monthdays(i, current_year) * HRS_IN_DAY
-                    - self.monthly_peak_cl_duration[i]
-                    - self.monthly_peak_hl_duration[i]
-                )
+                # a direction without load gets no pulse, so its (default) duration takes no time from the average
+                cl_duration = self.monthly_peak_cl_duration[i] if self.monthly_peak_cl[i] > 0 else 0.0
+                hl_duration = self.monthly_peak_hl_duration[i] if self.monthly_peak_hl[i] > 0 else 0.0
+                month_duration = monthdays(i, current_year) * HRS_IN_DAY - cl_duration - hl_duration
                 # gives htg load pk energy in kWh
                 month_peak_hl = self.monthly_peak_hl[i] * self.monthly_peak_hl_duration[i]
                 # gives htg load pk energy in kWh
